@@ -1,3 +1,4 @@
+import QuillModel.Backend.FlushGate
 import QuillModel.Backend.FlushProgress
 /-!
 # A drained queue is published, and a published drained queue grants (C09 on the backend model)
@@ -94,6 +95,19 @@ theorem QF.setTh_of (s S : BSt) (h : S.ths = s.ths) (ha : S.actors = s.actors) (
   (QF.ofThs h ha).trans (QF.setTh S i g (hg _))
 theorem SLOL.qf {s s' : BSt} (h : SLOL s s') : QF s s' :=
   QF.ofThs (congrArg Core2.ths h.core2) (congrArg Core2.actors h.core2)
+
+theorem qf_flushGate {inj : BSt → Nat → BSt} (hq : Quiet inj) (s : BSt) (n : Nat) : QF s (Backend.flushGate inj s n) := by
+  rcases flushGate_cases inj s n with ⟨_, e⟩ | ⟨_, e⟩ | ⟨_, e⟩ <;> rw [e]
+  · exact (slol_flushSinks _).qf
+  · exact QF.quiet hq s 7
+  · have h1 : QF (inj s 7) { inj s 7 with lastFlush := (inj s 7).now } := QF.ofThs rfl rfl
+    exact ((QF.quiet hq s 7).trans h1).trans (slol_flushSinks _).qf
+
+theorem qf_preEraseFlush (s : BSt) : QF s (Backend.preEraseFlush s) := by
+  unfold Backend.preEraseFlush
+  split
+  · exact (slol_flushSinks _).qf
+  · exact QF.refl _
 
 /-! ### reading a queue under a quiet runner -/
 
@@ -518,10 +532,10 @@ theorem poll_pub {ci : Nat} {s : BSt} (hq : Quiet inj) (h : PQ ci s) : Pub ((Bac
   · split
     · exact ((qf_processLowest hq s1).th ci).pub h1
     · exact ((qf_batchLoop hq _ s1).th ci).pub h1
-  · have a1 : QF s1 (Backend.allEmpty (Backend.checkFailures inj (flushSinks (inj s1 5)))).1 :=
-      (((QF.quiet hq s1 5).trans (slol_flushSinks _).qf).trans (qf_checkFailures hq _)).trans (qf_allEmpty _)
+  · have a1 : QF s1 (Backend.allEmpty (Backend.checkFailures inj (Backend.flushGate inj (inj s1 5) (inj s1 5).cfg.flushInterval))).1 :=
+      (((QF.quiet hq s1 5).trans (qf_flushGate hq _ _)).trans (qf_checkFailures hq _)).trans (qf_allEmpty _)
     split
-    · exact (((a1.trans (qf_cleanupContexts _)).trans (qf_cleanupLoggers hq _)).th ci).pub h1
+    · exact ((((a1.trans (qf_cleanupContexts _)).trans (qf_preEraseFlush _)).trans (qf_cleanupLoggers hq _)).th ci).pub h1
     · exact (a1.th ci).pub h1
 
 end Backend.PB
@@ -598,10 +612,10 @@ theorem poll_actors (hq : Quiet inj) (s : BSt) : (Backend.poll inj s).actors = s
   · split
     · rw [(qf_processLowest hq s1).act]; exact h1
     · rw [(qf_batchLoop hq _ s1).act]; exact h1
-  · have a1 : QF s1 (Backend.allEmpty (Backend.checkFailures inj (flushSinks (inj s1 5)))).1 :=
-      (((QF.quiet hq s1 5).trans (slol_flushSinks _).qf).trans (qf_checkFailures hq _)).trans (qf_allEmpty _)
+  · have a1 : QF s1 (Backend.allEmpty (Backend.checkFailures inj (Backend.flushGate inj (inj s1 5) (inj s1 5).cfg.flushInterval))).1 :=
+      (((QF.quiet hq s1 5).trans (qf_flushGate hq _ _)).trans (qf_checkFailures hq _)).trans (qf_allEmpty _)
     split
-    · rw [((a1.trans (qf_cleanupContexts _)).trans (qf_cleanupLoggers hq _)).act]; exact h1
+    · rw [(((a1.trans (qf_cleanupContexts _)).trans (qf_preEraseFlush _)).trans (qf_cleanupLoggers hq _)).act]; exact h1
     · rw [a1.act]; exact h1
 
 /-! ### a quiet continuation of the schedule -/
